@@ -102,7 +102,7 @@ func init() {
 		Instrument: map[string]simgen.Options{xgo + "/x/jsonrpc2": {Sync: true, Conc: true, Maps: true}},
 		Harness:    []harnessCopy{{"c39", "x/jsonrpc2"}},
 		TestPkg:    "x/jsonrpc2", TestName: "TestZSimC39",
-		QuickRuns: 6000, ThoroughRuns: 2000000, QuickBudget: 4 * time.Minute, ThoroughBudget: 60 * time.Minute,
+		QuickRuns: 12000, ThoroughRuns: 2000000, QuickBudget: 4 * time.Minute, ThoroughBudget: 60 * time.Minute,
 		MaxStepsQuick: 8000, MaxStepsThor: 30000, Chunk: 375,
 		Rule: "each run draws a transport (synchronous pipe like net.Pipe, or 64/4096-byte buffers), a fault plan (none in ~35% of runs; otherwise short reads, chunked writes, a failing write or read, a cut at a byte offset, a stall healed in the settle phase), 1-4 caller tasks spread over the two endpoints issuing calls (echo, peek answered on the read loop, slow, async with a later Respond, re-entrant, failing, unknown), notifications, cancel notifications, cancelled Await contexts, second awaiters, Close and Wait, and a scheduling strategy. After the first quiescence faults stop, blocked handlers are released and both ends are closed. Non-trivial = at least one completed Await and 10 context switches; distinct = distinct (event-log hash, workload hash) pairs",
 		Real: []string{"x/jsonrpc2 conn.go, serve.go (Dial, NewServer/run, newConnection), frame.go (HeaderFramer), messages.go, wire.go, jsonrpc2.go compiled from the working tree", "real channels/select (polling order decided by the simulator), context, encoding/json, bufio"},
